@@ -2,11 +2,13 @@ from propdefs.common import *
 
 PROP = {
     "bin": "c05",
-    "coq_targets": ["theories/Lift/C05Check", "theories/Lift/WfProofs"],
+    "coq_targets": ["theories/Lift/C05Check", "theories/Lift/WfProofs", "theories/Lift/MirrorWf", "theories/Lift/MirrorA64"],
     # n = random inputs per configuration (7 translators x 2 policies), on top of the structured sweeps;
     # n >= 20000 selects the full structured sweeps
-    "n": {"quick": 300, "thorough": 20000},
-    "theorems": ["wf_result_sound", "guards_det_sound", "exactly_one_sound", "wf_expr_constructors", "oracle_sound", "env_ok_satisfiable"],
+    "n": {"quick": 300, "thorough": 150000},
+    "theorems": ["wf_result_sound", "guards_det_sound", "exactly_one_sound", "wf_expr_constructors", "oracle_sound", "env_ok_satisfiable",
+                 "mips_mirror_block_good", "mips_lift_always_ok", "mips_branch_no_panic", "ppc_mirror_block_good", "ppc_lift_always_ok",
+                 "a64_no_panic", "a64_block_good", "a64_word_good"],
     "rule": "inputs are a pure function of (seed, n, index): a regression corpus, then per translator x policy a structured sweep in which every field "
             "that selects an operand KIND or width is enumerated and register / immediate VALUE fields take boundary values "
             "(MIPS: every major opcode x every function code x every shamt for SPECIAL/2/3, all REGIMM / COPz selectors, each word alone and with a delay-slot nop; "
@@ -25,11 +27,15 @@ PROP = {
                      "the shape abstraction used to deduplicate dumps before they are sent to Coq (harness c05.rs `shapes`)"],
     "assumptions": ["a guard that contains a division is rejected (it could fault); widths above 4096 bits are rejected",
                     "successors naming the same address twice count as a violation of 'one successor is enabled' (they collapse into one edge of the recovered graph)"],
-    "partial": ["'never panics, aborts or fails to terminate on ANY byte string' ranges over capstone (C), bad64 and the Rust lifters: EXPLORED by the sweep "
+    "partial": ["the mirror theorems cover the instruction classes mirrored by C02/C03 (MIPS 72 forms, PPC forms of PpcLift, A64 classes of A64Lift); x86 and "
+                "the unmirrored classes are covered by the per-output validators only",
+                "'never panics, aborts or fails to terminate on ANY byte string' ranges over capstone (C), bad64 and the Rust lifters: EXPLORED by the sweep "
                 "(every input in a child process, panics caught, dead child / timeout reported), not proved",
                 "determinism of lifting is differential: each input lifted twice in fresh translator instances and the dumps compared",
                 "the validators are proved sound, not complete: a rejection of lifter output is examined by hand (lifter defect or too coarse an abstraction)"],
-    "level_text": "Unbounded Coq theorems that the two validators run on every dumped BlockTranslationResult are sound -- wf_result implies the "
+    "level_text": "Unbounded Coq theorems that (1) the lifter mirrors of MIPS (all forms incl. delay-slot sequencing), PPC and A64 (Isa/*Lift.v, tied per "
+                  "encoding to the Rust lifters by C02/C03) never panic and produce only well-formed, deterministic blocks for EVERY field value, and (2) "
+                  "the two validators run on every dumped BlockTranslationResult are sound -- wf_result implies the "
                   "well-formedness proposition, guards_det_check implies that for EVERY valuation exactly one out-edge of each block and one successor of "
                   "the block is enabled under the IL's denotation -- evaluated in the kernel on the IL that the seven Rust translators actually return "
                   "for the swept inputs under both unsupported-instruction policies; totality over raw bytes is explored, not proved.",
